@@ -174,6 +174,7 @@ enum Sp {
 #[derive(Clone, Copy, Debug, PartialEq)]
 enum Exact {
     Bits,
+    Equal, // numerically equal: (-0.0 + t) - t is +0.0
     Ulps(f64),
 }
 
@@ -1258,7 +1259,8 @@ fn solve3(j: &[[f64; 3]; 3], d: &[f64; 3]) -> Option<[f64; 3]> {
 
 fn exact_mode(case: &Case) -> Option<Exact> {
     match (case.op.as_str(), case.aspect.as_str()) {
-        ("noop", _) | ("axisswap", _) | ("addone", "integer") | ("helmert", "translation-int") => Some(Exact::Bits),
+        ("noop", _) | ("axisswap", _) => Some(Exact::Bits),
+        ("addone", "integer") | ("helmert", "translation-int") => Some(Exact::Equal),
         ("adapt", _) => Some(if case.q.first().map(|q| q.0) == Some(0.0) { Exact::Bits } else { Exact::Ulps(4.0) }),
         ("addone", _) | ("helmert", "translation") => Some(Exact::Ulps(2.0)),
         ("unitconvert", _) => Some(Exact::Ulps(4.0)),
@@ -1393,6 +1395,11 @@ impl Judge<'_> {
                         return Err(self.fail(order, i, x, a, b, f64::NAN, 0.0, "(bit-identical required)"));
                     }
                 }
+                Some(Exact::Equal) => {
+                    if (0..4).any(|j| !(x[j] == b[j] || bits_eq(x[j], b[j]))) {
+                        return Err(self.fail(order, i, x, a, b, f64::NAN, 0.0, "(exact equality required)"));
+                    }
+                }
                 Some(Exact::Ulps(k)) => {
                     for j in 0..4 {
                         let m = if case.op == "adapt" { x[j].abs() } else { x[j].abs().max(a[j].abs()) };
@@ -1431,7 +1438,7 @@ impl Judge<'_> {
             }
         }
         let unit = if matches!(exact, Some(Exact::Ulps(_))) { "worst_ulps" } else { "worst_m" };
-        if exact != Some(Exact::Bits) {
+        if exact != Some(Exact::Bits) && exact != Some(Exact::Equal) {
             rec.metric(&format!("{unit}:{}", case.op.split(':').next().unwrap_or("")), worst);
             if exact.is_none() {
                 // pipelines: one entry per projection, not per macro wrapping
